@@ -1,6 +1,7 @@
 use super::StorageData;
 use super::StorageSlice;
 use crate::DbError;
+use crate::DbErrorType;
 
 pub struct MemoryStorage {
     buffer: Vec<u8>,
@@ -55,7 +56,18 @@ impl StorageData for MemoryStorage {
     }
 
     fn read(&'_ self, pos: u64, value_len: u64) -> Result<StorageSlice<'_>, DbError> {
-        let end = pos + value_len;
+        let end = pos
+            .checked_add(value_len)
+            .filter(|end| *end <= self.len())
+            .ok_or_else(|| {
+                DbError::storage(
+                    DbErrorType::OutOfBounds,
+                    format!(
+                        "Read of {value_len} bytes at {pos} exceeds storage length {}",
+                        self.len()
+                    ),
+                )
+            })?;
         Ok(StorageSlice::from(&self.buffer[pos as usize..end as usize]))
     }
 
